@@ -253,10 +253,10 @@ def strain_dev(utils, c, expected=None):
 
 
 # --------------------------------------------------------------------------- D. pathlines
-def concretise(rec, seed):
-    """Scenario class -> concrete call arguments (floats), seeded per scenario."""
+def concretise(rec, seed, rep=0):
+    """Scenario class -> concrete call arguments (floats), seeded per scenario (rep = index of the draw)."""
     s = rec["scen"]
-    rng = np.random.default_rng([seed, zlib.crc32(json.dumps(s, sort_keys=True).encode())])
+    rng = np.random.default_rng([seed, zlib.crc32(json.dumps(s, sort_keys=True).encode()), rep])
     ih, iv = LETTERS.index(s["axes"][0]), LETTERS.index(s["axes"][1])
     io = 3 - ih - iv
     b = {k: num(v) for k, v in rec["b"].items()}
@@ -309,10 +309,11 @@ def run_pathline(job):
     """
     tid, rec, seed = job[:3]
     tamper = job[3] if len(job) > 3 else None  # negative controls of the recorder (see main)
+    rep = job[4] if len(job) > 4 else 0
     quiet_pydrex()
     from pydrex import pathlines, utils
 
-    a = concretise(rec, seed)
+    a = concretise(rec, seed, rep)
     envf = {"rate": a["amp"], "U": a["amp"], "d": a["size"]}
     u, L = build_flow(a["fam"], a["axes"], envf)
     lo, hi, xf = np.array(a["lo"]), np.array(a["hi"]), np.array(a["xf"])
@@ -496,7 +497,8 @@ def main(tier):
     # ---- 6. pathlines: call the real get_pathline for every selected scenario, record, validate
     for fam in ("simple_shear", "cell", "corner"):  # JIT warm-up in the parent so that forked workers inherit it
         run_pathline((0, next(r for r in scen if r["scen"]["fam"] == fam), SEED))
-    jobs = [(tid, rec, SEED) for tid, rec in enumerate(scen, start=1)]
+    draws = 1 if quick else 2  # final locations drawn per scenario class
+    jobs = [(1 + i * draws + r, rec, SEED, None, r) for i, rec in enumerate(scen) for r in range(draws)]
     if nproc > 1:
         with mp.get_context("fork").Pool(nproc) as pool:
             results = pool.map(run_pathline, jobs, chunksize=max(1, len(jobs) // (nproc * 8)))
@@ -505,13 +507,13 @@ def main(tier):
     events = []
     infos = {}
     outcome = {}
-    for (tid, rec, _), (ev, info) in zip(jobs, results):
+    for (tid, rec, _, _, rep), (ev, info) in zip(jobs, results):
         events.extend(ev)
         infos[tid] = (rec, info)
         fam = rec["scen"]["fam"]
         o = ev[0]["out"]
         outcome[(fam, o)] = outcome.get((fam, o), 0) + 1
-        chk.count(("path", json.dumps(rec["scen"], sort_keys=True)))
+        chk.count(("path", json.dumps(rec["scen"], sort_keys=True), rep))
         if o == "returned":
             for m in ("endDev", "ode", "outside", "ratio"):
                 chk.maximum(f"pathline_{m}:{fam}", info[m])
@@ -545,6 +547,14 @@ def main(tier):
                 nbad = len(bad_tids.get((fam, cl), ()))
                 nj = n if cl == "pathline-returned" else outcome.get((fam, "returned"), 0)
                 judge.table[(fam, cl)] = [nj - nbad, nbad]
+        breakdown = {}
+        for key, lst in by_sig.items():
+            sg = json.loads(key)
+            for t in {t for t, _ in lst}:
+                sc_ = infos[t][0]["scen"]
+                kk = f"{sg['clause']}{':' + sg['exc'] if 'exc' in sg else ''} | {sc_['fam']}/{sc_['par']}/{sc_['box']} | loc={sc_['loc']['kind']} | lim={sc_['lim_e1'] / 10}"
+                breakdown[kk] = breakdown.get(kk, 0) + 1
+        chk.cov["pathline_rejections_by_class"] = dict(sorted(breakdown.items()))
         for key, lst in sorted(by_sig.items()):
             sig = json.loads(key)
             tid, line = lst[0]
@@ -601,7 +611,7 @@ def main(tier):
             cand = [tid for tid, info in accepted if pred(info)]
             if not cand:
                 raise MachineryError(f"no accepted pathline to build the recorder control '{tm}' from")
-            evs, _ = run_pathline((n, infos[cand[0]][0], SEED, tm))
+            evs, _ = run_pathline((n, infos[cand[0]][0], SEED, tm, (cand[0] - 1) % draws))
             bad_events.extend(evs)
         # a malformed pathline leaves the machine mid-trace; close it with a fresh Call so that DONE sees "idle"
         bad_events.extend(variant(len(variants) + 1, lambda v: v))
